@@ -312,6 +312,14 @@ def run_engine(spec, eng, tier, seed, work, rep, known, cov):
                                "the tie between model and code is not established",
                        "output": o[-4000:]}, no_input=True)
         return
+    for extra in eng.get("also_build", []):   # helper binaries next to the harness (e.g. the node a crash engine kills)
+        rce, oe, _ = go_build(extra, work)
+        if rce != 0:
+            cov["harness_build_failed"].append(name + ":" + extra)
+            rep.violation({"kind": "harness-does-not-build", "engine": name,
+                           "what": "helper binary %s no longer builds against /repo's working tree" % extra,
+                           "output": oe[-4000:]}, no_input=True)
+            return
     HARNESS_ENV.pop("VERIF_REF", None)
     if eng.get("ref"):
         rcr, orr, refpath = build_ref(eng["ref"], work)
